@@ -90,3 +90,66 @@ def to_json(g, b, bid):
     end = "done" if last in g.done else ("clients" if last in g.cdone else
                                          ("deadlock" if not g.succ.get(last) else "cut"))
     return {"id": bid, "prog": prog, "steps": steps, "end": end}
+
+
+def probes(g, per_kind=2, max_total=12):
+    """Blocked probes: prefixes (shortest paths) to states in which the model says a parked thread
+    cannot take its next step; the replay releases that thread and checks that it really waits.
+    Returns behaviours with a "probe" field, a few per kind of blocked operation."""
+    from collections import deque
+    parent = {}
+    dq = deque()
+    for i in g.inits:
+        parent[i] = None
+        dq.append(i)
+    order = []
+    while dq:
+        u = dq.popleft()
+        order.append(u)
+        for v in g.succ.get(u, []):
+            if v not in parent:
+                parent[v] = u
+                dq.append(v)
+    # only states from which the clients can still finish (the probe must not end in a hang)
+    pred = {}
+    for u, vs in g.succ.items():
+        for v in vs:
+            pred.setdefault(v, []).append(u)
+    ok = set()
+    dq = deque(n for n in order if n in g.cdone)
+    ok.update(dq)
+    while dq:
+        v = dq.popleft()
+        for u in pred.get(v, []):
+            if u not in ok:
+                ok.add(u)
+                dq.append(u)
+    out = []
+    count = {}
+    for n in order:
+        if n not in g.blocked or n not in ok:
+            continue
+        for t, what in sorted(g.blocked[n].items()):
+            if what == "op:wait":
+                continue
+            kind = what + ("@R" if t == "R" else ("@W" if t.startswith("W") else ""))
+            if count.get(kind, 0) >= per_kind:
+                continue
+            count[kind] = count.get(kind, 0) + 1
+            path = []
+            u = n
+            while u is not None:
+                path.append(u)
+                u = parent[u]
+            path.reverse()
+            out.append({"init": path[0], "nodes": path, "probe": {"t": t, "what": what}})
+            if len(out) >= max_total:
+                return out
+    return out
+
+
+def probe_json(g, b, bid, ms):
+    j = to_json(g, b, bid)
+    j["end"] = "cut"
+    j["probe"] = {"t": b["probe"]["t"], "what": b["probe"]["what"], "ms": ms}
+    return j
